@@ -28,11 +28,6 @@ func cfgs(name string, vals ...int64) []map[string]int64 {
 	return out
 }
 
-var nia = []gosym.BackendSpec{gosym.Z3New, gosym.CVC5, gosym.Z3Old}
-
-const swapPkg = "coreV2/state/swap"
-const txPkg = "coreV2/transaction"
-
 func cfg(kv ...interface{}) map[string]int64 {
 	m := map[string]int64{}
 	for i := 0; i+1 < len(kv); i += 2 {
@@ -41,25 +36,14 @@ func cfg(kv ...interface{}) map[string]int64 {
 	return m
 }
 
-var txAssumptions = append([]string{
-	"pre-state = arbitrary non-negative ledger over the harness universe (accounts A,B,zero; base coin, bancor coin 1, token 2; optional pools) in which every custom coin's volume equals the sum of its holdings, volume <= max supply, bancor reserve >= minimum: the representation invariant AppState.Verify demands of a genesis",
-	"balances are strictly positive except where a config makes one zeroable (a zero balance is a different account shape)",
-	"signature recovery abstracted: signer identity is a harness input (the signature gate itself is C23's subject); transaction hash opaque",
-	"bancor formulas are uninterpreted functions under the contract result>=0, sale return<=reserve, zero->zero, sell-all=reserve (C12 establishes it for formula.go modulo math.Pow)",
-	"rlp struct layer as field box (faithful and injective on exported fields)",
-}, commonAssumptions...)
+var nia = []gosym.BackendSpec{gosym.Z3New, gosym.CVC5, gosym.Z3Old}
 
-// sendConfigs: gas coin / sent coin / pool configurations of the Send harness.
-var sendQuick = []map[string]int64{
-	cfg("gasCoin", 0, "coin", 0),
-	cfg("gasCoin", 0, "coin", 1, "zeroable", 0, "zeroableOn", 1),
-	cfg("gasCoin", 1, "coin", 1),
-	cfg("gasCoin", 1, "coin", 0, "toSelf", 1),
-}
-var sendPool = []map[string]int64{
-	cfg("gasCoin", 1, "coin", 0, "pool10", 1),
-	cfg("gasCoin", 2, "coin", 1, "pool20", 1),
-}
+const (
+	swapPkg   = "coreV2/state/swap"
+	txPkg     = "coreV2/transaction"
+	minterPkg = "coreV2/minter"
+	appdbPkg  = "coreV2/appdb"
+)
 
 var commonAssumptions = []string{
 	"single goroutine: sync primitives are no-ops (C25 is not claimed)",
@@ -68,36 +52,110 @@ var commonAssumptions = []string{
 	"fmt/log/strconv formatting has no effect on consensus state",
 }
 
-func txCheck(id string, quick, thorough []HSpec, extra ...string) {
-	var hs []HSpec
-	for _, h := range quick {
-		h.Tier = "quick"
-		hs = append(hs, h)
+var txAssumptions = append([]string{
+	"pre-state = arbitrary non-negative ledger over the harness universe (accounts A,B,zero,burn; base coin, bancor coin 1, token 2; optional pools) in which every custom coin's volume equals the sum of its holdings, volume <= max supply, bancor reserve >= minimum: the representation invariant AppState.Verify demands of a genesis",
+	"balances are strictly positive except where a config makes one zeroable (a zero balance is a different account shape)",
+	"signature recovery abstracted: signer identity is a harness input (the signature gate itself is C23's subject); transaction hash opaque",
+	"bancor formulas are uninterpreted functions under the contract result>=0, sale return<=reserve, zero->zero, sell-all=reserve (C12 establishes it for formula.go modulo math.Pow)",
+	"rlp struct layer as field box (faithful and injective on exported fields)",
+}, commonAssumptions...)
+
+var blockAssumptions = append([]string{
+	"block universe: candidates P (validator) and Q, delegators D1, D2 with base-coin stakes of arbitrary size (P's and Q's first stake >= the 1000 BIP validator minimum), frozen funds at the heights listed by the harness; testnet period constants (unbond 531 blocks, same code path as mainnet's 518400)",
+	"version table of a current chain (v300..v330 active): PayRewardsV5Fix and UpdatePriceFix are the selected variants",
+	"Tendermint delivers well-formed BeginBlock/EndBlock requests; each validator's status in the block (present, absent, missing from the commit info) is a harness choice",
+}, commonAssumptions...)
+
+func add(id string, assumptions []string, hs ...HSpec) {
+	c := registry[id]
+	if c == nil {
+		c = &Check{ID: id, ReportPanics: id == "C07"}
+		registry[id] = c
 	}
-	for _, h := range thorough {
-		h.Tier = "thorough"
-		hs = append(hs, h)
+	c.Harnesses = append(c.Harnesses, hs...)
+	for _, a := range assumptions {
+		dup := false
+		for _, b := range c.Assumptions {
+			if a == b {
+				dup = true
+			}
+		}
+		if !dup {
+			c.Assumptions = append(c.Assumptions, a)
+		}
 	}
-	registry[id] = &Check{ID: id, Harnesses: hs, Assumptions: append(extra, txAssumptions...), ReportPanics: id == "C07"}
+}
+
+func tier(t string, hs ...HSpec) []HSpec {
+	out := make([]HSpec, len(hs))
+	for i, h := range hs {
+		h.Tier = t
+		out[i] = h
+	}
+	return out
 }
 
 func init() {
-	send := HSpec{Pkg: txPkg, Func: "VerifHarness_Send_Deliver", Configs: sendQuick, Bounds: "one CheckTx+DeliverTx of Send; every amount, nonce, gas price, chain id symbolic (unbounded integers / full machine width)"}
-	sendP := HSpec{Pkg: txPkg, Func: "VerifHarness_Send_Deliver", Configs: sendPool, Opts: gosym.HarnessOpts{MaxPaths: 1500}, Bounds: "as above with the commission paid through a swap pool; path bound 1500"}
-	for _, id := range []string{"C01", "C02", "C03", "C04", "C05", "C06", "C07", "C27"} {
-		txCheck(id, []HSpec{send}, []HSpec{sendP})
+	// ---------------------------------------------------------- transactions
+	sendQuick := []map[string]int64{
+		cfg("gasCoin", 0, "coin", 0),
+		cfg("gasCoin", 0, "coin", 1, "zeroable", 0, "zeroableOn", 1),
+		cfg("gasCoin", 1, "coin", 1),
+		cfg("gasCoin", 1, "coin", 0, "toSelf", 1),
 	}
-	registry["C09"] = &Check{ID: "C09", Assumptions: append([]string{
+	sendPool := []map[string]int64{
+		cfg("gasCoin", 1, "coin", 0, "pool10", 1),
+		cfg("gasCoin", 2, "coin", 1, "pool20", 1),
+	}
+	send := HSpec{Pkg: txPkg, Func: "VerifHarness_Send_Deliver", Configs: sendQuick, Bounds: "one CheckTx+DeliverTx of Send; every amount, nonce, gas price, chain id symbolic (unbounded integers / full machine width)"}
+	sendP := HSpec{Pkg: txPkg, Func: "VerifHarness_Send_Deliver", Configs: sendPool, Opts: gosym.HarnessOpts{MaxPaths: 1500}, Bounds: "as above with the commission paid through a swap pool with symbolic reserves; path bound 1500"}
+	failFee := HSpec{Pkg: txPkg, Func: "VerifHarness_C07_FailedTxPoolFee", Configs: []map[string]int64{cfg("pool10", 1, "concretePool", 1, "concretePrices", 1)},
+		Bounds: "rejected Send paid in a pool coin; concrete pool reserves and price table, sender balances symbolic"}
+	failFeeSym := HSpec{Pkg: txPkg, Func: "VerifHarness_C07_FailedTxPoolFee", Configs: []map[string]int64{cfg("pool10", 1, "concretePool", 1)}, Opts: gosym.HarnessOpts{MaxPaths: 1500},
+		Bounds: "as above with symbolic price table and gas price"}
+	for _, id := range []string{"C01", "C02", "C03", "C04", "C05", "C06", "C07", "C27"} {
+		add(id, txAssumptions, tier("quick", send)...)
+		add(id, txAssumptions, tier("thorough", sendP)...)
+	}
+	for _, id := range []string{"C01", "C02", "C03", "C07"} {
+		add(id, txAssumptions, tier("quick", failFee)...)
+		add(id, txAssumptions, tier("thorough", failFeeSym)...)
+	}
+
+	// ---------------------------------------------------------- blocks
+	byz := HSpec{Pkg: minterPkg, Func: "VerifHarness_Block_ByzantineAndMaturity", Configs: []map[string]int64{cfg("evidence", 1), cfg("evidence", 0)},
+		Bounds: "one BeginBlock at height 1000: byzantine evidence against validator P (or none), 5 frozen items (2 maturing now, one of them a pending move), all amounts unbounded positive integers"}
+	endAcc := HSpec{Pkg: minterPkg, Func: "VerifHarness_Block_EndAccumulate", Configs: []map[string]int64{cfg("statuses", 1), cfg("statuses", 0, "atCap", 1)},
+		Bounds: "one EndBlock at a non-payout height, 2 validators with every present/absent/missing status, reward, safe reward, fees, stakes symbolic"}
+	endAccT := HSpec{Pkg: minterPkg, Func: "VerifHarness_Block_EndAccumulate", Configs: []map[string]int64{cfg("statuses", 1, "atCap", 1)}, Bounds: "as above at the emission cap"}
+	payByz := HSpec{Pkg: minterPkg, Func: "VerifHarness_Block_EndPayout", Configs: []map[string]int64{cfg("evidence", 1)}, Opts: gosym.HarnessOpts{MaxPaths: 400},
+		Bounds: "BeginBlock with evidence against P then EndBlock of the same payout block (composed step); accrued rewards symbolic"}
+	pay := HSpec{Pkg: minterPkg, Func: "VerifHarness_Block_EndPayout", Configs: []map[string]int64{cfg("evidence", 0)}, Opts: gosym.HarnessOpts{MaxPaths: 2500},
+		Bounds: "one EndBlock at a payout height, 2 validators x up to 2 stakes, no locked (x3) stakes, accrued rewards symbolic; path bound 2500"}
+	for _, id := range []string{"C01", "C16", "C18", "C07"} {
+		add(id, blockAssumptions, tier("quick", byz)...)
+	}
+	for _, id := range []string{"C01", "C19", "C28", "C07"} {
+		add(id, blockAssumptions, tier("quick", endAcc)...)
+		add(id, blockAssumptions, tier("thorough", endAccT)...)
+	}
+	for _, id := range []string{"C19", "C07"} {
+		add(id, blockAssumptions, tier("quick", payByz)...)
+		add(id, blockAssumptions, tier("thorough", pay)...)
+	}
+
+	// ---------------------------------------------------------- C09 app DB
+	add("C09", append([]string{
 		"app-DB layer: the key-value store under AppDB is a correct durable map (KVModel); rlp and tmjson as field boxes",
 		"emission > 0 (a zero emission is stored as an empty value, which the reader cannot tell from an absent one; genesis emission is positive on every deployed chain)",
 		"block heights and block times are concrete in this harness (their fixed-width encodings are not the subject)",
 		"the app-DB block of Blockchain.Commit is mirrored by the harness as SetLastBlockHash, SetLastHeight, FlushValidators, SaveBlocksTime, SaveVersions, SaveEmission, SavePrice",
-	}, commonAssumptions...), Harnesses: []HSpec{
-		{Pkg: "coreV2/appdb", Func: "VerifHarness_C09_AppDB", Tier: "quick", Configs: []map[string]int64{
-			cfg("restart", 0), cfg("restart", 1), cfg("restart", 1, "newPrice", 1), cfg("restart", 0, "newVersion", 1, "newValidators", 1), cfg("restart", 1, "newVersion", 1, "newValidators", 1),
-		}, Bounds: "genesis block + one block, with or without a restart in between; emission, price reserves, last reward: unbounded integers"},
-	}}
-	c20 := func(fn string, tier string, vals ...int) HSpec {
+	}, commonAssumptions...), HSpec{Pkg: appdbPkg, Func: "VerifHarness_C09_AppDB", Tier: "quick", Configs: []map[string]int64{
+		cfg("restart", 0), cfg("restart", 1), cfg("restart", 1, "newPrice", 1), cfg("restart", 0, "newVersion", 1, "newValidators", 1), cfg("restart", 1, "newVersion", 1, "newValidators", 1),
+	}, Bounds: "genesis block + one block, with or without a restart in between; emission, price reserves, last reward: unbounded integers"})
+
+	// ---------------------------------------------------------- C20
+	c20 := func(fn string, t string, vals ...int) HSpec {
 		var cs []map[string]int64
 		for _, v := range vals {
 			if v < 0 { // negative: also explore present / absent / missing-from-commit statuses
@@ -106,30 +164,31 @@ func init() {
 				cs = append(cs, cfg("validators", v))
 			}
 		}
-		return HSpec{Pkg: "coreV2/minter", Func: fn, Tier: tier, Configs: cs, Bounds: "validators as configured, every stake an unbounded positive integer, every vote pattern; big.Float as exact reals (the float64 constant 2./3. is exact; the 64-bit rounding of the quotient is outside this harness and covered by native replay of each counterexample)"}
+		return HSpec{Pkg: minterPkg, Func: fn, Tier: t, Configs: cs, Bounds: "validators as configured, every stake an unbounded positive integer, every vote pattern; big.Float over exact reals: verdicts are drawn outside a band of 2^-60 around the float64 constant 2./3. (the 64-bit rounding of the quotient is below 2^-64 relative), every counterexample is replayed natively with real big.Float"}
 	}
-	registry["C20"] = &Check{ID: "C20", Assumptions: append([]string{
-		"all validators are recorded present in the block (presence is handled by calculatePowers, which the harness runs)",
+	add("C20", append([]string{
+		"each validator's status in the block is a harness choice (present, absent, missing from the commit info); only present validators carry power",
 		"math/big.Float modelled over exact reals in this harness (FloatMode real)",
-	}, commonAssumptions...), Harnesses: []HSpec{
+	}, commonAssumptions...),
 		c20("VerifHarness_C20_Halt", "quick", 2, 3, -2),
 		c20("VerifHarness_C20_Commission", "quick", 2, -2),
 		c20("VerifHarness_C20_Network", "quick", 2),
 		c20("VerifHarness_C20_Halt", "thorough", -3),
 		c20("VerifHarness_C20_Commission", "thorough", 3, -3),
-		c20("VerifHarness_C20_Network", "thorough", 3, -2, -3),
-	}}
-	registry["C13"] = &Check{ID: "C13", Assumptions: append([]string{
+		c20("VerifHarness_C20_Network", "thorough", 3, -2, -3))
+
+	// ---------------------------------------------------------- C13 / C14 pool kernels and order book
+	add("C13", append([]string{
 		"pre-state of a pool: both reserves > 0 (re-established by every harness as a post-condition), LP supply > minimum liquidity",
 		"big.Int.Sqrt by contract r*r <= x < (r+1)^2",
-	}, commonAssumptions...), Harnesses: []HSpec{
-		{Pkg: swapPkg, Func: "VerifHarness_C13_SellKeepsK", Tier: "quick", Configs: cfgs("reversed", 0, 1), Opts: gosym.HarnessOpts{Backends: nia}, Bounds: "reserves and amount: unbounded positive integers"},
-		{Pkg: swapPkg, Func: "VerifHarness_C13_BuyKeepsK", Tier: "quick", Configs: cfgs("reversed", 0, 1), Opts: gosym.HarnessOpts{Backends: nia}, Bounds: "unbounded positive integers"},
-		{Pkg: swapPkg, Func: "VerifHarness_C13_CheckSwapGuardsSwap", Tier: "quick", Opts: gosym.HarnessOpts{Backends: nia}, Bounds: "unbounded non-negative integers"},
-		{Pkg: swapPkg, Func: "VerifHarness_C13_MintBurn", Tier: "quick", Opts: gosym.HarnessOpts{Backends: nia}, Bounds: "unbounded positive integers"},
-		{Pkg: swapPkg, Func: "VerifHarness_C13_BurnShare", Tier: "quick", Opts: gosym.HarnessOpts{Backends: nia}, Bounds: "unbounded positive integers"},
-		{Pkg: swapPkg, Func: "VerifHarness_C13_CreateLocksBound", Tier: "quick", Opts: gosym.HarnessOpts{Backends: nia}, Bounds: "unbounded positive integers; sqrt by contract"},
-		{Pkg: swapPkg, Func: "VerifHarness_C13_SellWithOrders", Tier: "quick", Configs: []map[string]int64{cfg("orders", 0), cfg("orders", 1)}, Bounds: "concrete pool 10000/10000 BIP and concrete resting orders; taker amount symbolic in (0, 100000 BIP]; order prices are concrete big.Floats executed bit-exactly"},
-		{Pkg: swapPkg, Func: "VerifHarness_C13_SellWithOrders", Tier: "thorough", Configs: []map[string]int64{cfg("orders", 2)}, Bounds: "as above with two order levels"},
-	}}
+		"order-book harness: concrete pool and concrete resting orders (their float prices are executed bit-exactly by Go's own big.Float), symbolic taker amount",
+	}, commonAssumptions...),
+		HSpec{Pkg: swapPkg, Func: "VerifHarness_C13_SellKeepsK", Tier: "quick", Configs: cfgs("reversed", 0, 1), Opts: gosym.HarnessOpts{Backends: nia}, Bounds: "reserves and amount: unbounded positive integers"},
+		HSpec{Pkg: swapPkg, Func: "VerifHarness_C13_BuyKeepsK", Tier: "quick", Configs: cfgs("reversed", 0, 1), Opts: gosym.HarnessOpts{Backends: nia}, Bounds: "unbounded positive integers"},
+		HSpec{Pkg: swapPkg, Func: "VerifHarness_C13_CheckSwapGuardsSwap", Tier: "quick", Opts: gosym.HarnessOpts{Backends: nia}, Bounds: "unbounded non-negative integers"},
+		HSpec{Pkg: swapPkg, Func: "VerifHarness_C13_MintBurn", Tier: "quick", Opts: gosym.HarnessOpts{Backends: nia}, Bounds: "unbounded positive integers"},
+		HSpec{Pkg: swapPkg, Func: "VerifHarness_C13_BurnShare", Tier: "quick", Opts: gosym.HarnessOpts{Backends: nia}, Bounds: "unbounded positive integers"},
+		HSpec{Pkg: swapPkg, Func: "VerifHarness_C13_CreateLocksBound", Tier: "quick", Opts: gosym.HarnessOpts{Backends: nia}, Bounds: "unbounded positive integers; sqrt by contract"},
+		HSpec{Pkg: swapPkg, Func: "VerifHarness_C13_SellWithOrders", Tier: "quick", Configs: []map[string]int64{cfg("orders", 0), cfg("orders", 1)}, Bounds: "concrete pool 10000/10000 BIP and concrete resting orders; taker amount symbolic in (0, 100000 BIP]"},
+		HSpec{Pkg: swapPkg, Func: "VerifHarness_C13_SellWithOrders", Tier: "thorough", Configs: []map[string]int64{cfg("orders", 2)}, Bounds: "as above with two order levels"})
 }
